@@ -358,6 +358,7 @@ class Engine:
             bits = 64 if m.group(2) == 'size' else int(m.group(2))
             if m.group(1) == 'u': return (1 << bits) - 1 if m.group(3) == 'MAX' else 0
             return (1 << (bits - 1)) - 1 if m.group(3) == 'MAX' else -(1 << (bits - 1))
+        if re.fullmatch(r'[A-Z][A-Z0-9_]*', s) and s in self.env_stack[-1] and re.fullmatch(r'-?\d+', str(self.env_stack[-1][s])): return int(self.env_stack[-1][s])      # const generic parameter
         if self.const_overrides:
             for k_, v_ in self.const_overrides.items():
                 if s.endswith('::' + k_) or s == k_: return v_
@@ -580,7 +581,7 @@ class Engine:
                     txt = open(os.path.join(root, f)).read()
                     m = re.search(r'\bfn\s+' + re.escape(name) + r'\s*<([^(]*?)>\s*\(', txt)
                     if m:
-                        res = [p.strip().split(':')[0].strip() for p in split_top(m.group(1)) if not p.strip().startswith("'")]
+                        res = [re.sub(r'^const\s+', '', p.strip().split(':')[0].strip()) for p in split_top(m.group(1)) if not p.strip().startswith("'")]
                         break
                 if res: break
             if res: break
@@ -631,6 +632,10 @@ class Engine:
     def _run(self, fn, args):
         fr = {i + 1: a for i, a in enumerate(args)}
         bb = 0; blocks = fn.blocks
+        zst = getattr(fn, '_zst_closures', None) if hasattr(fn, '__dict__') else None
+        for i, ty in fn.types.items():                   # zero-sized closures are never assigned in MIR (`_5 = &mut _6` with _6 untouched)
+            if i > len(args) and isinstance(ty, str) and ty.startswith(('{closure@', '{async closure@')):
+                cl = Agg([], ty); cl.env = self.env_stack[-1]; fr[i] = cl
         if fn.name not in self.touched: self.touched[fn.name] = fn
         while True:
             block = blocks[bb]
@@ -786,6 +791,10 @@ class Engine:
         name = re.sub(r'::<.*', '', segs[-1]); cpath = '::'.join(re.sub(r'::<.*', '', x) for x in segs)
         cands = [f for f in self.ix.by_simple.get(name, []) if '<impl at' not in f.name and '{' not in f.name and len(f.args) == len(args) and f.header.startswith('fn ')
                  and (f.name == cpath or f.name.endswith('::' + cpath) or cpath.endswith('::' + f.name))]
+        if not cands and len(segs) >= 3:
+            # function nested in a method: `Type::<..>::method::inner` is printed by rustc as `<impl at ..>::method::inner`
+            tail = '::'.join(re.sub(r'::<.*', '', x) for x in segs[-2:])
+            cands = [f for f in self.ix.by_simple.get(name, []) if f.name.endswith('>::' + tail) and '{' not in f.name and len(f.args) == len(args) and f.header.startswith('fn ')]
         if len(cands) == 1: return cands[0]
         if len(cands) > 1:
             c2 = [f for f in cands if f.name == cpath]
